@@ -24,7 +24,7 @@ pub fn def() -> CheckDef {
 fn meta(_ctx: &Ctx) -> Meta {
     Meta {
         level: "exploration",
-        rule: "hostile inputs: (1) boundary-value products over the intro fields il/dl of both headers and over single index entries (type 0..10, offsets -1/0/dl-1/dl/dl+1/i32 extremes, counts 0/1/dl/dl+1/2^31/u32::MAX, unterminated strings) on the tags the accessors read, (2) every truncation and single-byte mutation (00, FF, +1, -1, each bit) of the metadata of small valid packages (built, signed, asset), (3) seeded structure-aware mutation storms (several fields at once, many entries aliasing one string region), (4) hostile uncompressed cpio payloads (name lengths 0/1/4096/4097/2^32-1, unterminated or non-UTF-8 names, non-hex fields, sizes beyond the data, missing trailer, stripped entries with bad indexes, wrong magic), (5) garbage/empty inputs. Each input is parsed as Package and PackageMetadata and every read-side operation (all metadata getters, file entries/paths, dependencies, changelog, scriptlets, offsets, Display, write, verify_digests, verify_signature with a recording and a real verifier, signature_key_ids, files() on uncompressed payloads) is applied inside worker processes (release and overflow-checking verifdbg builds) that turn panics, aborts, allocation-budget trips (4 MiB + 256 x input length) and watchdog timeouts into events. The repository's packages are also read with builds of the library that lack the matching decompressor (three other cargo feature sets): no panic. distinct_nontrivial = distinct inputs executed (content hash)".into(),
+        rule: "hostile inputs: (1) boundary-value products over the intro fields il/dl of both headers and over single index entries (type 0..10, offsets -1/0/dl-1/dl/dl+1/i32 extremes, counts 0/1/dl/dl+1/2^31/u32::MAX, unterminated strings) on the tags the accessors read, (2) every truncation and single-byte mutation (00, FF, +1, -1, each bit) of the metadata of small valid packages (built, signed, asset), (3) seeded structure-aware mutation storms (several fields at once, many entries aliasing one string region), (4) hostile uncompressed cpio payloads (name lengths 0/1/4096/4097/2^32-1, unterminated or non-UTF-8 names, non-hex fields, sizes beyond the data, missing trailer, stripped entries with bad indexes, wrong magic), (5) garbage/empty inputs. Each input is parsed as Package and PackageMetadata and every read-side operation (all metadata getters, file entries/paths, dependencies, changelog, scriptlets, offsets, Display, write, verify_digests, verify_signature with a recording and a real verifier, signature_key_ids, files() on uncompressed payloads) is applied inside worker processes (release and overflow-checking verifdbg builds) that turn panics, aborts, allocation-budget trips (4 MiB + 256 x input length) and watchdog timeouts into events. The repository's packages are also read with builds of the library that lack the matching decompressor (three other cargo feature sets): no panic. Family cross-tags: well-formed headers whose related tags disagree (locale table vs i18n entries with \"C\" at every position, per-file arrays, dependency / changelog / scriptlet groups of unequal lengths or mixed types). distinct_nontrivial = distinct inputs executed (content hash)".into(),
         assumptions: vec![
             "legitimate peak heap is below 4 MiB + 256 x input length (measured: <= ~41x on dense string arrays)".into(),
             "a watchdog firing counts only when the case still does not finish alone with a 10x budget".into(),
@@ -520,6 +520,81 @@ fn family_cpio(g: &mut Gen<'_>, rng: &mut Rng, n_random: usize) {
 
 /// signature tags holding an OpenPGP packet header that announces a huge body (the packet parser of
 /// the pgp dependency allocates the announced length before reading)
+/// well-formed headers whose RELATED tags disagree with each other: a locale table longer or
+/// shorter than the i18n entries it indexes ("C" at every position), per-file arrays, dependency
+/// triples, changelog triples and scriptlet tag groups of unequal lengths or mixed types
+fn family_cross_tags(g: &mut Gen<'_>, rng: &mut Rng, n_random: usize) {
+    let strs = |n: usize, stem: &str| -> Vec<Vec<u8>> { (0..n).map(|i| format!("{stem}{i}").into_bytes()).collect() };
+    let mk = |items: Vec<(u32, Val)>| -> Vec<u8> {
+        let mut items = items;
+        items.sort_by_key(|(t, _)| *t);
+        items.dedup_by_key(|(t, _)| *t);
+        let (he, hs) = layout(&items);
+        let (se, ss) = layout(&[]);
+        enc_package(&enc_lead("x"), &enc_header(&se, &ss), &enc_header(&he, &hs), b"")
+    };
+    // locale table x i18n entries
+    let tables: Vec<Vec<&str>> = vec![vec![], vec!["C"], vec!["de"], vec!["de", "C"], vec!["C", "de"], vec!["de", "fr", "C"], vec!["de", "C", "fr", "ja"], vec!["c"], vec!["C", "C"]];
+    for table in &tables {
+        for n in 1..=4usize {
+            for table_val in 0..3 {
+                let tv = match table_val {
+                    0 => Val::StrArray(table.iter().map(|s| s.as_bytes().to_vec()).collect()),
+                    1 => Val::I18n(table.iter().map(|s| s.as_bytes().to_vec()).collect()),
+                    _ => Val::Str(table.first().unwrap_or(&"").as_bytes().to_vec()),
+                };
+                let mut items = vec![(tag::NAME, Val::str("i18n")), (tag::SUMMARY, Val::I18n(strs(n, "summary"))), (tag::DESCRIPTION, Val::I18n(strs(n.saturating_sub(1).max(1), "description"))), (tag::GROUP, Val::I18n(strs(1, "group")))];
+                if !(table.is_empty() && table_val != 2) {
+                    items.push((tag::I18NTABLE, tv));
+                }
+                g.push("cross-tags:i18n-table", mk(items));
+            }
+        }
+    }
+    // random disagreement between the members of tag groups
+    for _ in 0..n_random {
+        let mut items: Vec<(u32, Val)> = vec![(tag::NAME, Val::str("x"))];
+        let cnt = |r: &mut Rng| [0usize, 1, 1, 2, 3, 5][r.usize(6)];
+        let any = |r: &mut Rng, n: usize, kind: u64| -> Val {
+            match kind {
+                0 => Val::StrArray((0..n).map(|i| format!("s{i}").into_bytes()).collect()),
+                1 => Val::Int32((0..n).map(|i| if r.chance(1, 6) { r.next() as u32 } else { i as u32 }).collect()),
+                2 => Val::Int16((0..n).map(|_| [0o100644u16, 0o040755, 0o120777, 0, 0xffff][r.usize(5)]).collect()),
+                3 => Val::Int64((0..n).map(|_| r.below(1 << 40)).collect()),
+                4 => Val::Str(b"single".to_vec()),
+                5 => Val::I18n((0..n.max(1)).map(|i| format!("t{i}").into_bytes()).collect()),
+                _ => Val::Bin(vec![7u8; n.max(1)]),
+            }
+        };
+        // (tag, natural kind)
+        let groups: [&[(u32, u64)]; 6] = [
+            &[(tag::BASENAMES, 0), (tag::DIRNAMES, 0), (tag::DIRINDEXES, 1), (tag::FILEMODES, 2), (tag::FILESIZES, 1), (tag::LONGFILESIZES, 3), (tag::FILEMTIMES, 1), (tag::FILEDIGESTS, 0), (tag::FILEFLAGS, 1), (tag::FILEUSERNAME, 0), (tag::FILEGROUPNAME, 0), (tag::FILELINKTOS, 0), (tag::FILECAPS, 0), (tag::FILEDIGESTALGO, 1), (tag::FILEVERIFYFLAGS, 1)],
+            &[(tag::REQUIRENAME, 0), (tag::REQUIREFLAGS, 1), (tag::REQUIREVERSION, 0), (tag::PROVIDENAME, 0), (tag::PROVIDEFLAGS, 1), (tag::PROVIDEVERSION, 0)],
+            &[(tag::CHANGELOGTIME, 1), (tag::CHANGELOGNAME, 0), (tag::CHANGELOGTEXT, 0)],
+            &[(tag::PREIN, 4), (tag::PREINPROG, 0), (tag::PREINFLAGS, 1), (tag::VERIFYSCRIPT, 4), (tag::VERIFYSCRIPTPROG, 0), (tag::VERIFYSCRIPTFLAGS, 1)],
+            &[(tag::I18NTABLE, 0), (tag::SUMMARY, 5), (tag::DESCRIPTION, 5), (tag::GROUP, 5)],
+            &[(tag::PAYLOADDIGEST, 0), (tag::PAYLOADDIGESTALGO, 1), (tag::PAYLOADDIGESTALT, 0), (tag::PAYLOADCOMPRESSOR, 4), (tag::PAYLOADFORMAT, 4)],
+        ];
+        let ngroups = 1 + rng.usize(3);
+        for _ in 0..ngroups {
+            let grp = groups[rng.usize(groups.len())];
+            let base_n = cnt(rng);
+            for (t, kind) in grp {
+                if rng.chance(1, 6) {
+                    continue; // member missing
+                }
+                let n = if rng.chance(2, 3) { base_n } else { cnt(rng) };
+                let kind = if rng.chance(1, 10) { rng.below(7) } else { *kind };
+                if n == 0 && !matches!(kind, 4 | 5 | 6) {
+                    continue; // a count of 0 is not encodable as a well-formed entry
+                }
+                items.push((*t, any(rng, n, kind)));
+            }
+        }
+        g.push("cross-tags:random", mk(items));
+    }
+}
+
 fn family_pgp(g: &mut Gen<'_>) {
     use base64::Engine;
     let (he, hs) = layout_with_region(tag::HDR_REGION, &[(tag::NAME, Val::str("pgp")), (tag::VERSION, Val::str("1")), (tag::RELEASE, Val::str("1")), (tag::ARCH, Val::str("noarch"))]);
@@ -612,6 +687,7 @@ fn run(ctx: &Ctx, rep: &Report) {
     family_cpio(&mut g, &mut rng, ctx.tier.pick(3000, 60_000));
     family_garbage(&mut g, &mut rng, ctx.tier.pick(2000, 50_000));
     family_pgp(&mut g);
+    family_cross_tags(&mut g, &mut rng, ctx.tier.pick(1500, 60_000));
     family_storms(&mut g, &targets, ctx.tier.pick(20_000, 400_000), &mut rng);
     family_mutations(&mut g, &targets, thorough, &mut rng);
     g.flush();
